@@ -625,14 +625,14 @@ func TestProp(t *testing.T) {
 		"stay_signed_in_after_failed_revoke":                               env.Pick(15, 500),
 		"invalid_return_address_refused":                                   env.Pick(40, 1200),
 		"proxy_sign_out_url_accepted_by_auth":                              env.Pick(150, 4000),
-		"post_success_cleared_and_returned":                                env.Pick(30, 800),
+		"post_success_cleared_and_returned":                                env.Pick(15, 500),
 		"old_auth_cookie_refused_after_sign_out":                           env.Pick(20, 600),
 		"old_proxy_cookie_refused_other-token-of-the-grant_idp_asked_true": env.Pick(5, 150),
 	}
 	for _, o := range revokeOutcomes {
 		floors["revoke_outcome_observed_"+o] = env.Pick(5, 150)
 	}
-	floors["revoke_outcome_observed_timeout"] = env.Pick(4, 25)
+	floors["revoke_outcome_observed_timeout"] = env.Pick(2, 15)
 	for name, min := range floors {
 		if env.Replay != "" || skipHist {
 			min = 0
